@@ -150,8 +150,13 @@ int main(int argc, char **argv) {
 				if (len == 3 && !thorough) { b[0] = AL3[x % 24]; b[1] = AL3[(x / 24) % 24]; b[2] = AL3[x / 576]; } else { b[0] = x & 255; b[1] = (x >> 8) & 255; b[2] = (x >> 16) & 255; }
 				for (int e = 0; e < 15; e++) { if (len == 3 && thorough && e > 4 && e != 7 && e != 9) continue; H_CASE("c04 small len=%d bytes=%02x%02x%02x ep=%s", len, b[0], b[1], b[2], EPN[EPS[e]]); run_ep(EPS[e], b, (size_t)len, 0); if (len >= 2 && (x % 7) == 0) run_ep(EPS[e], b, (size_t)len, 1); } } }
 	} else if (!strcmp(argv[1], "seeds")) {
-		for (int si = 0; si < 9; si++) { rb_init(&sm, seedb, sizeof seedb);
-			if (si < 5) { seed_fmt = 0; ref_block b[2]; memset(b, 0, sizeof b); b[0].data = plain; b[0].len = 48; b[0].dict_byte = 0; b[1].data = plain + 48; b[1].len = 0; b[1].dict_byte = 5;
+		for (int si = 0; si < 11; si++) { rb_init(&sm, seedb, sizeof seedb);
+			if (si >= 9) {	// BCJ filter whose 4-byte Filter Properties field is present (explicit start offset 0 / 0x1000): legal, never written by xz itself
+				seed_fmt = 0; static const uint8_t Z4[4] = { 0, 0, 0, 0 }, O4[4] = { 0, 0x10, 0, 0 }; ref_block b; memset(&b, 0, sizeof b); b.data = plain; b.len = 48; b.dict_byte = 0; b.nextra = 1; b.extra_id[0] = si == 9 ? 0x04 : 0x0A; b.extra_props[0] = si == 9 ? Z4 : O4; b.extra_props_len[0] = 4;
+				ref_xz_stream(&sm, &b, 1, 1, NULL); snprintf(sname, sizeof sname, "xz-seed%d(%s with explicit start offset)", si, si == 9 ? "x86" : "arm64");
+				{ uint64_t ml = UINT64_MAX; size_t ip = 0, op = 0; static uint8_t ob[256]; lzma_ret r = lzma_stream_buffer_decode(&ml, 0, NULL, seedb, &ip, sm.len, ob, &op, sizeof ob); H_CASE("c04 seed=%s unmodified", sname);
+				  if (r != LZMA_OK || op != 48 || (si == 9 && memcmp(ob, plain, 48))) h_fail("c04:valid-seed-rejected", "valid file with an explicit BCJ start offset: lzma_stream_buffer_decode returned %d with %zu bytes (%s)", r, op, sname); } }
+			else if (si < 5) { seed_fmt = 0; ref_block b[2]; memset(b, 0, sizeof b); b[0].data = plain; b[0].len = 48; b[0].dict_byte = 0; b[1].data = plain + 48; b[1].len = 0; b[1].dict_byte = 5;
 				unsigned check = si == 0 ? 1 : si == 1 ? 10 : si == 2 ? 4 : si == 3 ? 0 : 7;
 				if (si == 1) { b[0].with_csize = b[0].with_usize = 1; b[0].ndelta = 2; b[0].delta_dist[0] = 1; b[0].delta_dist[1] = 200; b[0].extra_header_pad = 1; }
 				if (si == 2) { ref_stream_opts so = { .padding_after = 4 }; ref_xz_stream(&sm, b, 2, check, &so); ref_xz_stream(&sm, b, 1, 1, NULL); } else ref_xz_stream(&sm, b, si == 4 ? 2 : 1, check, NULL);
